@@ -154,6 +154,16 @@ Section Elems.
     eapply keeps2_weaken; [exact K|apply IH].
   Qed.
 
+  Lemma keeps2_key_app c items : forall s, keeps2 (key_app app c items s) s.
+  Proof.
+    induction items as [|x r IH]; intro s; simpl; [apply frames_refl|].
+    pose proof (Happ c [x] s) as K.
+    destruct (app c [x] s) as [[k s1]| |]; simpl; auto.
+    destruct k; simpl; auto.
+    pose proof (IH s1) as K2. destruct (key_app app c r s1) as [[ks s2]| |]; simpl; auto.
+    simpl in *. eapply frames_trans; eauto.
+  Qed.
+
   Lemma keeps2_scan_app c items : forall acc s, keeps2 (scan_app app c acc items s) s.
   Proof.
     induction items as [|x r IH]; intros acc s; simpl; [apply frames_refl|].
@@ -235,6 +245,10 @@ Section Elems.
       destruct a0 as [z|l|c], a as [z'|l'|c']; ofopt; try (apply keeps_map_push; exact F); fr.
     - (* F *) pops. assert (F : frames s s1) by fr.
       destruct a0 as [z|l|c], a as [z'|l'|c']; ofopt; try (apply keeps_filter_push; exact F); fr.
+    - (* ṡ *) pops. assert (F : frames s s1) by fr.
+      destruct a0 as [z|l|c], a as [z'|l'|c']; ofopt; try exact I;
+        match goal with |- keeps (xbind (key_app app ?c ?its s1) _) _ =>
+          pose proof (keeps2_key_app c its s1) as K; destruct (key_app app c its s1) as [[ks s3]| |] end; simpl in *; fr.
     - (* † *) pops. destruct a as [z|l|c]; simpl; try exact I.
       + match goal with |- keeps (xbind (of_opt ?o) _) _ => destruct o end; simpl; fr.
       + eapply keeps_weaken; [exact E|apply Hcall].
@@ -306,25 +320,27 @@ Section RStep.
 
   Lemma keeps2_r_lambda c popped s : keeps2 (r_lambda rec c popped s) s.
   Proof.
-    unfold r_lambda, with_stack, with_function, with_context, with_scope, with_registered, bracket. simpl.
+    unfold r_lambda, with_stack, with_locals, with_function, with_context, with_scope, with_registered, bracket. simpl.
     match goal with |- context [rec (c_body c) ?S0] => pose proof (Hrec (c_body c) S0) as K; destruct (rec (c_body c) S0) as [s1| |] end;
       simpl; try exact I.
     destruct (pop1 s1) as [s2 r] eqn:E. simpl. apply pop1_frames in E.
     repeat split; simpl; try reflexivity. apply scopes_like_refl.
   Qed.
 
-  Lemma r_params_frames ps : forall s s1 l, r_params ps s = (s1, l) -> frames s s1.
+  Lemma r_params_frames ps : forall s s1 l loc, r_params ps s = (s1, l, loc) -> frames s s1.
   Proof.
-    induction ps as [|n r IH]; intros s s1 l H; simpl in H.
+    induction ps as [|[n|x] r IH]; intros s s1 l loc H; simpl in H.
     - inversion H; subst. apply frames_refl.
-    - destruct (popn n s) as [sa popped] eqn:E1. destruct (r_params r sa) as [sb more] eqn:E2.
+    - destruct (popn n s) as [sa popped] eqn:E1. destruct (r_params r sa) as [[sb more] lc] eqn:E2.
       inversion H; subst. eapply frames_trans; [eapply popn_frames; eauto|eapply IH; eauto].
+    - destruct (pop1 s) as [sa v] eqn:E1. destruct (r_params r sa) as [[sb more] lc] eqn:E2.
+      inversion H; subst. eapply frames_trans; [eapply pop1_frames; eauto|eapply IH; eauto].
   Qed.
 
   Lemma keeps2_r_named c s : keeps2 (r_named rec c s) s.
   Proof.
-    unfold r_named. destruct (r_params (c_params c) s) as [s1 ps] eqn:E. apply r_params_frames in E.
-    unfold with_stack, with_context, with_scope, with_registered, bracket. simpl.
+    unfold r_named. destruct (r_params (c_params c) s) as [[s1 ps] loc] eqn:E. apply r_params_frames in E.
+    unfold with_stack, with_locals, with_context, with_scope, with_registered, bracket. simpl.
     match goal with |- context [rec (c_body c) ?S0] => pose proof (Hrec (c_body c) S0) as K; destruct (rec (c_body c) S0) as [s2| |] end;
       simpl; try exact I.
     destruct K as (K1 & K2 & K3 & K4). destruct E as (E1 & E2 & E3 & E4). simpl in *.
@@ -357,7 +373,7 @@ Section RStep.
     - destruct (number_value (tv t)); simpl; fr.
     - destruct (tv t) as [|k [|? ?]]; try exact I.
       apply keeps_elem_sem; [apply keeps2_r_app|apply keeps_r_callstk].
-    - destruct (name_ok (tv t)); [|exact I]. destruct (lookup (tv t) (vars s)); simpl; fr.
+    - destruct (name_ok (tv t)); [|exact I]. destruct (lookup_var (tv t) s); simpl; fr.
     - destruct (name_ok (tv t)); [|exact I]. destruct (pop1 s) as [s1 v] eqn:E. apply pop1_frames in E. simpl. exact E.
   Qed.
 
@@ -402,11 +418,10 @@ Section RStep.
   Lemma keeps2_r_items its : forall s, keeps2 (r_items rec its s) s.
   Proof.
     induction its as [|x r IH]; intro s; simpl; [apply frames_refl|].
-    unfold with_stack, bracket. simpl.
-    pose proof (Hrec x (set_stk s (stk s))) as K.
-    destruct (rec x (set_stk s (stk s))) as [s'| |]; simpl; try exact I.
-    pose proof (IH (set_stk s' (stk s))) as K2.
-    destruct (r_items rec r (set_stk s' (stk s))) as [[vs s2]| |]; simpl; try exact I.
+    unfold with_stack, with_locals, bracket. simpl.
+    match goal with |- context [rec x ?S0] => pose proof (Hrec x S0) as K; destruct (rec x S0) as [s'| |] end; simpl; try exact I.
+    match goal with |- context [r_items rec r ?S1] => pose proof (IH S1) as K2; destruct (r_items rec r S1) as [[vs s2]| |] end;
+      simpl; try exact I.
     simpl in *. fr.
   Qed.
 
@@ -425,7 +440,7 @@ Section RStep.
       destruct (pop1 s1) as [s2 v] eqn:E. apply pop1_frames in E.
       eapply keeps_weaken; [|apply Hwl]. simpl in K. fr.
     - destruct (name_ok _); [|exact I].
-      destruct (lookup _ (vars s)) as [[z|l|c]|]; try exact I. apply keeps_r_callstk.
+      destruct (lookup_var _ s) as [[z|l|c]|]; try exact I. apply keeps_r_callstk.
     - destruct (name_ok _); [|exact I]. destruct (params_of params); simpl; fr.
     - simpl. fr.
     - destruct op; try exact I;
